@@ -21,7 +21,7 @@ REQUIRED_BUCKETS = ['op:finalize', 'op:bind', 'op:parse', 'op:macro', 'op:regist
                     'state:unlock-while-locked', 'state:unlock-raises-while-locked', 'state:finalize-inside-unlock',
                     'reject:unbound-macro', 'reject:unevaluated-macro', 'reject:unknown-reference', 'reject:required',
                     'reject:hook-conflict', 'reject:hook-conflict-spelling', 'reject:hook-invalid-key', 'reject:hook-raises',
-                    'hooks:return-bindings-applied', 'hooks:saw-pre-finalize-config']
+                    'hooks:return-bindings-applied', 'hooks:saw-pre-finalize-config', 'op:from-another-thread']
 ORACLE_COUNTERS = ['oracle_evals', 'ops_compared']
 
 _S = {'plan': [None, None], 'seen': []}
@@ -137,6 +137,24 @@ def plan_bindings(plan):
   raise ValueError(plan)
 
 
+def in_thread(fn):
+  """Run fn in a fresh thread and return/raise what it returns/raises: the lock is a property of the configuration, not of a thread."""
+  import threading
+  box = {}
+
+  def run():
+    try:
+      box['r'] = fn()
+    except BaseException as e:  # pylint: disable=broad-except
+      box['e'] = e
+  t = threading.Thread(target=run)
+  t.start()
+  t.join(60)
+  if 'e' in box:
+    raise box['e']
+  return box.get('r')
+
+
 def run_ops(ctx, m, ops, depth, shape):
   """Runs ops against gin and model; returns normally (exceptions from unlock bodies are raised by the caller)."""
   import gin
@@ -147,7 +165,11 @@ def run_ops(ctx, m, ops, depth, shape):
     before = snap.store_nonempty(gc)
     expect_exc = None
     got_exc = None
-    label = '%r (locked=%s)' % (op if kind != 'unlock' else ['unlock', '...', op[2]], m.locked)
+    other_thread = (ctx.case_no + len(shape)) % 14 == 0 and kind in ('finalize', 'bind', 'parse', 'macro', 'register')
+    call = in_thread if other_thread else (lambda f: f())
+    if other_thread:
+      ctx.bucket('op:from-another-thread')
+    label = '%r (locked=%s%s)' % (op if kind != 'unlock' else ['unlock', '...', op[2]], m.locked, ', from another thread' if other_thread else '')
     if kind in ('bind', 'parse', 'macro', 'poison', 'unpoison', 'register') and m.locked:
       ctx.bucket('state:mutation-under-lock')
     if kind == 'finalize':
@@ -168,7 +190,7 @@ def run_ops(ctx, m, ops, depth, shape):
       if depth > 0 and not m.locked:
         ctx.bucket('state:finalize-inside-unlock')
       try:
-        gin.finalize()
+        call(gin.finalize)
       except Exception as e:  # pylint: disable=broad-except
         got_exc = e
       if expect_exc is None:
@@ -186,7 +208,7 @@ def run_ops(ctx, m, ops, depth, shape):
       ctx.bucket('op:bind')
       expect_exc = RuntimeError if m.locked else None
       try:
-        gin.bind_parameter((op[2] + '/' if op[2] else '') + 'f.' + op[1], op[3])
+        call(lambda: gin.bind_parameter((op[2] + '/' if op[2] else '') + 'f.' + op[1], op[3]))
       except Exception as e:  # pylint: disable=broad-except
         got_exc = e
       if not m.locked:
@@ -197,7 +219,7 @@ def run_ops(ctx, m, ops, depth, shape):
       pre = op[2] + '/' if op[2] else ''
       text = ('%sf:\n  %s = %d\n' % (pre, op[1], op[3])) if op[4] else ('%ssub.f.%s = %d' % (pre, op[1], op[3]))
       try:
-        gin.parse_config(text)
+        call(lambda: gin.parse_config(text))
       except Exception as e:  # pylint: disable=broad-except
         got_exc = e
       if not m.locked:
@@ -206,7 +228,7 @@ def run_ops(ctx, m, ops, depth, shape):
       ctx.bucket('op:macro')
       expect_exc = RuntimeError if m.locked else None
       try:
-        gin.parse_config('c12m = %d' % op[1])
+        call(lambda: gin.parse_config('c12m = %d' % op[1]))
       except Exception as e:  # pylint: disable=broad-except
         got_exc = e
       if not m.locked:
@@ -222,11 +244,11 @@ def run_ops(ctx, m, ops, depth, shape):
       fresh.__name__ = name
       try:
         if api == 'register':
-          gin.register(name, module='c12')(fresh)
+          call(lambda: gin.register(name, module='c12')(fresh))
         elif api == 'external':
-          gin.external_configurable(fresh, name, module='c12')
+          call(lambda: gin.external_configurable(fresh, name, module='c12'))
         else:
-          gin.configurable(name, module='c12')(fresh)
+          call(lambda: gin.configurable(name, module='c12')(fresh))
       except Exception as e:  # pylint: disable=broad-except
         got_exc = e
       try:
@@ -317,6 +339,9 @@ def run_ops(ctx, m, ops, depth, shape):
         after = snap.store_nonempty(gc)
         ctx.check(after == before, 'mutation-under-lock-changed-config', '%s: changed %r' % (label, snap.diff(before, after)))
     ctx.check(gin.config_is_locked() == m.locked, 'lock-state-differs', '%s: config_is_locked()=%s, model %s' % (label, gin.config_is_locked(), m.locked))
+    if other_thread or (ctx.case_no + len(shape)) % 40 == 0:
+      seen = in_thread(gin.config_is_locked)
+      ctx.check(seen == m.locked, 'lock-state-differs-between-threads', '%s: another thread sees locked=%s, model %s' % (label, seen, m.locked))
     cur = snap.store_nonempty(gc)
     ctx.check(cur == m.store, 'store-differs-from-model', '%s: store diff (gin, model) %r' % (label, snap.diff(cur, m.store)))
     if gin.config_is_locked() != m.locked:
